@@ -157,7 +157,8 @@ def fmt(hist):
 
 
 def hist_init(tier, seed):
-    return {"ctx": {"sets": SETS[:3] + [_seed_set(seed)] if seed % 2 else SETS}, "roots": [[]], "depth": 5 if tier == "quick" else 8}
+    return {"ctx": {"sets": SETS[:3] + [_seed_set(seed)] if seed % 2 else SETS}, "roots": [[]], "depth": 5 if tier == "quick" else 8,
+            "max_states": 60000 if tier == "quick" else 5000000}
 
 
 def hist_expand(ctx, h, acc):
